@@ -222,7 +222,7 @@ def rule_postlex_cons(ctx: RuleContext, p: Program, rid: str) -> None:
               'PostLexInline.process does not return the stream unchanged', f2.where)
 
 
-def _gap_sem(p: Program, mb: Any) -> tuple[str, int]:
+def _gap_sem(p: Program, mb: Any, symbolic: bool = True) -> tuple[str, int]:
     from . import possem
     from .tokenstore import TS
     ts = TS(p)
@@ -230,14 +230,46 @@ def _gap_sem(p: Program, mb: Any) -> tuple[str, int]:
     fg = p.method(mb, '_fix_gap', inherited=False)
     bt = p.method(mb, '_build_token', inherited=False)
 
+    def token_class(name: str) -> Any:
+        cands = [c for c in p.class_by_name.get(name, []) if not c.module.name.endswith('_test') and any(d.rsplit('.', 1)[-1] == 'token_model' for d in c.decorators)]
+        return cands[0] if len(cands) == 1 else None
+
     class Interp(possem.PosInterp):
         tag = 'BUILDER-CONS'
+        _foreign_methods = True
 
         def method(self, cls: str, name: str) -> Any:            # type: ignore[override]
             f = mb.lookup(name) if cls == 'ModelBuilder' else None
+            if f is None and token_class(cls) is not None:
+                f = token_class(cls).lookup(name)
             return f if isinstance(f, FuncInfo) else super().method(cls, name)
 
+        def built(self, c: Any, text: Any) -> Any:
+            rule_ = p.class_const(c, 'RULE')
+            return possem.Obj('Built', {'type': rule_.value if isinstance(rule_, ast.Constant) else c.name, 'raw_text': text, 'claimed': True}, f'built {c.name}')
+
         def expr(self, e: Any, env: dict) -> Any:                 # type: ignore[override]
+            # a token class named directly (models.BlockComment, or an alias imported into a models module) and its constructors / helpers
+            if isinstance(e, ast.Attribute) and isinstance(e.value, ast.Name) and e.value.id == 'models' and 'models' not in env and token_class(e.attr) is not None:
+                return possem.ClassRef(e.attr)
+            if isinstance(e, ast.Name) and e.id not in env:
+                sy_ = getattr(self.mod, 'symbols', {}).get(e.id)
+                if type(sy_).__name__ == 'ClassInfo' and token_class(sy_.name) is sy_:
+                    return possem.ClassRef(sy_.name)
+            if isinstance(e, ast.Call) and isinstance(e.func, ast.Attribute) and e.func.attr in ('from_raw_text', 'from_default') \
+                    and not (isinstance(e.func.value, ast.Subscript)):
+                try:
+                    cv = self.expr(e.func.value, env)
+                except AnalysisError:
+                    cv = None
+                if isinstance(cv, possem.ClassRef) and token_class(cv.name) is not None:
+                    c_ = token_class(cv.name)
+                    if e.func.attr == 'from_raw_text':
+                        return self.built(c_, self.expr(e.args[0], env))
+                    d_ = p.class_const(c_, 'DEFAULT')
+                    if d_ is None:
+                        raise self.err(e, 'from_default() of a class without DEFAULT')
+                    return self.built(c_, self.expr(d_, {}))
             if isinstance(e, ast.Subscript) and norm(e.value) in ('models.TOKEN_MODELS', 'TOKEN_MODELS'):
                 return possem.Obj('ModelClass', {'type': self.expr(e.slice, env)}, 'model class')
             if isinstance(e, ast.Call) and isinstance(e.func, ast.Attribute) and e.func.attr == 'from_raw_text':
@@ -262,6 +294,40 @@ def _gap_sem(p: Program, mb: Any) -> tuple[str, int]:
     ignored_types = list(grammar(p).ignore)
     kinds = {'t': ('ACCOUNT', 'Assets:A'), 'e': ('EOL', ''), 'c': ('BLOCK_COMMENT', '; note'), 'w': ('WHITESPACE', ' '), 'i': ('INDENT', '  '), 'j': ('INDENT', '')}
     cases = 0
+    def concrete_pass(full: bool = False) -> Optional[str]:
+        nonlocal cases
+        # the same gap filling on concrete texts: whatever _fix_gap builds for a lexer token (one model, or several through a helper of the token
+        # class), the texts of what it builds, in order, are the text of that token -- every character, carriage returns included
+        ckinds = {'t': ('ACCOUNT', 'Assets:A'), 'e': ('EOL', ''), 'w': ('WHITESPACE', ' '), 'n': ('_NEWLINE', '\r\n'),
+                  'c': ('BLOCK_COMMENT', '; a'), 'd': ('BLOCK_COMMENT', '  ; a\n    ; b'), 'f': ('BLOCK_COMMENT', '  ; a\r\n    ; b\r\n  ;c'),
+                  'g': ('BLOCK_COMMENT', '\t; a\n\t; b'), 'h': ('BLOCK_COMMENT', '  ;\r\r\n   ; b')}
+        for k in range(1, 4):
+            for seq in itertools.product(ckinds, repeat=k):
+                if k == 3 and sum(1 for ch in seq if ch in 'cdfgh') != 1:
+                    continue
+                toks = [possem.Obj('LarkToken', {'type': ckinds[ch][0], 'value': ckinds[ch][1]}, f'{i}:{ch}') for i, ch in enumerate(seq)]
+                for cursor, target in ([(0, k)] if not full else [(a, b) for a in range(k + 1) for b in range(a, k + 1)]):
+                    me = possem.Obj('ModelBuilder', {'_tokens': list(toks), '_built_tokens': [], '_cursor': cursor,
+                                                     '_token_to_index': {id(t): i for i, t in enumerate(toks)}}, 'builder')
+                    cases += 1
+                    try:
+                        Interp(ts, [], module=m).call_function(fg, [me, target], {})
+                    except possem.Raised as ex:
+                        return f'lexer tokens {[ckinds[ch][1] for ch in seq]}: _fix_gap raises {ex}'
+                    want_text = ''.join(ckinds[ch][1] for ch in seq[cursor:target])
+                    texts = [b.f.get('raw_text') if isinstance(b, possem.Obj) else None for b in me.f['_built_tokens']]
+                    if any(not isinstance(x, str) for x in texts) or ''.join(texts) != want_text:
+                        return (f'lexer tokens with the texts {[ckinds[ch][1] for ch in seq[cursor:target]]}: _fix_gap builds tokens with the texts {texts}, which read '
+                                f'{"".join(x for x in texts if isinstance(x, str))!r} -- not the {want_text!r} of the input: a character of the gap is lost or changed')
+                    if any(isinstance(b, possem.Obj) and b.f.get('type') == 'BLOCK_COMMENT' and b.f.get('claimed') for b in me.f['_built_tokens']):
+                        return 'a block comment from a gap is materialised as already claimed'
+                    if me.f['_cursor'] != target:
+                        return f'_fix_gap({target}) leaves the cursor at {me.f["_cursor"]!r}'
+        return None
+
+    cp = concrete_pass(full=not symbolic)
+    if cp or not symbolic:
+        return cp or '', cases
     # _build_indent: the indent of an indented child is the next token with text, line breaks / comments / blanks (the %ignore'd types) aside;
     # a token of the model itself in front of it means there is no indent -- it must not be jumped over
     bi = mb.lookup('_build_indent')
@@ -403,7 +469,14 @@ def rule_builder_cons(ctx: RuleContext, p: Program, rid: str) -> None:
     ctx.check(set(cur_writes) == want, rid, f'{site}: cursor writers', f'{sorted(cur_writes)}',
               f'_cursor is written by {sorted(cur_writes)}, expected {sorted(want)}', mb.where, note=f'{sorted(cur_writes)}')
     # _fix_gap and _build_token, interpreted against a mock builder
-    problem, cases = _gap_sem(p, mb)
+    try:
+        problem, cases = _gap_sem(p, mb)
+    except AnalysisError as ex_:
+        if 'unsupported' not in str(ex_):
+            raise
+        # the pass over texts of unknown length met something it cannot do with an abstract text (a helper that splits the text of a token):
+        # the same family of token lists, cursors and targets is evaluated on concrete texts only
+        problem, cases = _gap_sem(p, mb, symbolic=False)
     ctx.check(not problem, rid, f'{site}._fix_gap / _build_token', problem or 'ok',
               f'_fix_gap / _build_token interpreted on lexer-token lists of up to 4 tokens (with text, without text, block comments), every cursor '
               f'position and every target: {problem}', fg.where,
